@@ -103,6 +103,9 @@ type nrCfg struct {
 	SyncSec   int64       `json:"sync_s"` // kubelet node status report / informer resync period
 	Lag       bool        `json:"lag"`    // informer deliveries may be held back even without the stale-read fault
 	Seed      uint64      `json:"seed"`   // derives the content of periodic koordlet reports
+	// SettleDel: in the settle phase a koordlet that stops may be uninstalled together with its NodeMetric object
+	// (a cfg switch, not a tape choice of every run: plans recorded before it existed replay unchanged)
+	SettleDel bool `json:"settle_del,omitempty"`
 }
 
 type nrPodSpec struct {
@@ -140,12 +143,12 @@ type nrReport struct {
 }
 
 type nrOp struct {
-	K    string        `json:"k"` // advance | report | koordlet | pod_add | pod_del | pod_phase | cfg | node | nrt | restart | pump
+	K    string        `json:"k"` // advance | report | koordlet | metric | pod_add | pod_del | pod_phase | cfg | node | nrt | restart | pump
 	N    int           `json:"n,omitempty"`
 	P    int           `json:"p,omitempty"`
 	D    int64         `json:"d,omitempty"` // seconds
 	S    uint64        `json:"s,omitempty"`
-	Up   bool          `json:"up,omitempty"`
+	Up   bool          `json:"up,omitempty"` // koordlet: start / stop; metric: the NodeMetric object is (re-)created empty / deleted
 	To   string        `json:"to,omitempty"` // pod_phase: Running | Succeeded | Failed
 	Pod  *nrPodSpec    `json:"pod,omitempty"`
 	Cfg  *nrCMCfg      `json:"cfg,omitempty"`
@@ -295,6 +298,7 @@ var nrFaultKinds = []string{"err-before", "err-after", "conflict", "stale-read",
 func (nrEngine) Generate(p *sim.Plan, g *sim.Rng) {
 	thorough := p.Tier == "thorough"
 	cfg := nrCfg{ReportSec: g.PickI64(60, 120, 300, 300), SyncSec: g.PickI64(90, 150, 300), Lag: g.Bool(0.3), Seed: g.U64()}
+	cfg.SettleDel = g.Bool(0.3)
 	nn := g.Range(1, 2)
 	if thorough || g.Bool(0.2) {
 		nn = g.Range(1, 3)
@@ -339,6 +343,7 @@ func (nrEngine) Generate(p *sim.Plan, g *sim.Rng) {
 	}
 	var ops []nrOp
 	npods := 0
+	metricGone := map[int]bool{}
 	addPod := func(n int) {
 		npods++
 		ops = append(ops, nrOp{K: "pod_add", N: n, P: npods, Pod: nrGenPod(g, cfg.Nodes[n].Zones)})
@@ -356,6 +361,12 @@ func (nrEngine) Generate(p *sim.Plan, g *sim.Rng) {
 	}
 	for len(ops) < total {
 		n := g.Intn(nn)
+		if metricGone[n] && g.Bool(0.2) {
+			// the nodemetric controller usually brings a missing NodeMetric back before long
+			metricGone[n] = false
+			ops = append(ops, nrOp{K: "metric", N: n, Up: true})
+			continue
+		}
 		switch x := g.Intn(100); {
 		case x < 22:
 			// mostly around the report interval, sometimes beyond the degrade time
@@ -424,6 +435,15 @@ func (nrEngine) Generate(p *sim.Plan, g *sim.Rng) {
 			ops = append(ops, nrOp{K: "restart"})
 		case x < 95:
 			ops = append(ops, nrOp{K: "nrt", N: n, Z: g.PickInt(0, 1, 2, 2, 3, 4), S: g.U64()})
+		case x < 98:
+			// the NodeMetric object of the node disappears (koordlet uninstalled, CR deleted by an operator or by a
+			// nodemetric controller that lost sight of the node) / is created again, empty, by the nodemetric controller
+			up := g.Bool(0.3)
+			if g.Bool(0.8) {
+				up = metricGone[n] // usually the applicable one (node deletion / re-creation is not tracked here: the op re-checks)
+			}
+			metricGone[n] = !up
+			ops = append(ops, nrOp{K: "metric", N: n, Up: up})
 		default:
 			ops = append(ops, nrOp{K: "pump"})
 		}
